@@ -16,6 +16,8 @@ import Shutter.Drive.GnosisSlot
 import Shutter.Drive.ServiceTrigger
 import Shutter.Drive.Validate
 import Shutter.Drive.Net
+import Shutter.Drive.Trigger
+import Shutter.Drive.Syncer
 
 open Shutter
 
@@ -32,6 +34,8 @@ def dispatch (st : DState) (line : String) : DState × String :=
   | "ST" :: rest => (st, Drive.ServiceTrigger.step rest)
   | "VAL" :: rest => (st, Drive.Validate.step rest)
   | "NET" :: rest => (st, Drive.Net.step rest)
+  | "TRG" :: rest => (st, Drive.Trigger.step rest)
+  | "SYN" :: rest => (st, Drive.Syncer.step rest)
   | "KG" :: rest => (st, Drive.EpochKG.step rest)
   | "SG" :: rest => (st, Drive.Signers.step rest)
   | "API" :: rest => (st, Drive.Api.step rest)
